@@ -22,6 +22,17 @@ Mirrors, line by line (current source, i.e. including the two `fix:` commits of 
                   f_getuid             -> `getuid`       NULL uid = crash (explicit outcome)
   lib/lpc/object.c reload_object       -> `doReload`     euid := 0, create() again
 
+Round 5 additions:
+  lib/lpc/operator.c f_bind           -> `.bind` case of `execWith`: same owner = no master call; master valid_bind (error
+                                                         propagates, NULL / 0 refuse = error); the function then runs as the NEW owner
+  src/simulate.c  set_master           -> `initObjs` (first load, with / without get_root_uid(): `Cfg.noRoot`) and `doDest` of the
+                                                         master with `Policy.root` (the reloaded master announces another root uid: it
+                                                         gets that name through add_uid, nobody else's names change)
+                  give_uid_to_object   -> `withCfPre`: the creator's uids are read AFTER the creator_file apply; the verification
+                                                         master may drop its own euid inside it (`Policy.cfDrop`)
+  the simul_efun object                -> actor `se` (`Cfg.simul`): "NONAME" / 0 from before the master existed, no exemption;
+                                                         destruct_object refuses to destruct it (`Err.simulDest`)
+
 Compile-time options come from NV/Gen/C20.lean (`autoTrustBackbone`; AUTO_SETEUID is recorded there, the source has
 no code depending on it - the plugin checks that).
 
